@@ -18,12 +18,14 @@ VARIABLES seq, out
 Init == seq = <<>> /\ out = <<>>
 Extend == out = <<>> /\ Len(seq) < 3 /\ \E b \in IdBytes : seq' = Append(seq, b) /\ UNCHANGED out
 Finish == /\ out = <<>>
-          /\ \E oneChunk \in BOOLEAN :
+          \* (with grease and credit for exactly three unidirectional streams the client's grease stream stays pending while the GOAWAYs
+          \*  are read: control frames must be processed all the same)
+          /\ \E oneChunk \in BOOLEAN, gc \in {<<FALSE, 100>>, <<TRUE, 100>>, <<TRUE, 3>>} :
                LET frames == [i \in 1..Len(seq) |-> GA(seq[i])]
                    flat == LET RECURSIVE F(_) F(i) == IF i > Len(frames) THEN <<>> ELSE frames[i] \o F(i + 1) IN F(1)
                    dl == IF oneChunk THEN <<[op |-> "deliver", sid |-> 3, bytes |-> <<0, 4, 0>> \o flat]>>
                          ELSE <<[op |-> "deliver", sid |-> 3, bytes |-> <<0, 4, 0>>]>> \o [i \in 1..Len(frames) |-> [op |-> "deliver", sid |-> 3, bytes |-> frames[i]]]
-               IN out' = [part |-> "G", role |-> "client", cfg |-> [grease |-> FALSE, uni_credit |-> 100, write |-> "all"], ids |-> seq, steps |-> dl \o Probe]
+               IN out' = [part |-> "G", role |-> "client", cfg |-> [grease |-> gc[1], uni_credit |-> gc[2], write |-> "all"], ids |-> seq, steps |-> dl \o Probe]
           /\ UNCHANGED seq
 Next == Extend \/ Finish
 Spec == Init /\ [][Next]_<<seq, out>>
